@@ -220,6 +220,7 @@ def run(tier, prop="C17"):
     simcfg.write_text((c.SPEC / "Walk_export.cfg").read_text().replace("Instances <- MCSmall", "Instances <- MCInstances").replace("MaxFail = 3", "MaxFail = 9"))
     jobs = [("MC_Walk", "Walk_small.cfg" if tier == "quick" else "Walk_deep.cfg", {"workers": 4}),
             ("MC_Walk", "Walk_live.cfg", {"workers": 2}),
+            ("MC_Walk", "Walk_unbounded.cfg" if tier == "quick" else "Walk_unbounded_deep.cfg", {"workers": 2}),
             ("MC_Walk", "Walk_dev_retryall.cfg", {"check": False, "workers": 1}),
             ("MC_Walk", "Walk_dev_nocleanup.cfg", {"check": False, "workers": 1}),
             ("MC_Walk", "Walk_dev_rewindleaves.cfg", {"check": False, "workers": 1}),
@@ -227,8 +228,11 @@ def run(tier, prop="C17"):
             ("WalkExport", "Walk_export.cfg", {"workers": 3}),
             ("WalkExport", "Walk_export3.cfg", {"workers": 2}),
             ("WalkExport", simcfg, {"workers": 1, "simulate": "num=%d" % nsim, "depth": 200, "tseed": sd + 11})]
-    small, live, d1, d2, d3, d4, ex, ex3, sim = c.tlc_many(jobs)
+    small, live, unb, d1, d2, d3, d4, ex, ex3, sim = c.tlc_many(jobs)
     ck.model_must_hold(small, "RolledBack/AttemptClean/GrowFromPositioned/SuppliedKept/Final/NoDoublePlacement/AcceptedStable/OnlyCurrent")
+    ck.model_must_hold(unb, "the same invariants and action properties on the COMPLETE reachable state graph without a bound on the number of failing placements "
+                            "(MaxFail <- Unlimited: `fails` is frozen, every other counter is bounded by the instance, so the graph is finite and every failure schedule of any length is a path in it)")
+    ck.extra["unbounded_failures"] = {"cfg": "Walk_unbounded.cfg" if tier == "quick" else "Walk_unbounded_deep.cfg", "distinct_states": unb.distinct, "depth": getattr(unb, "depth", None)}
     ck.model_must_hold(live, "Terminates (fair behaviours with a bounded number of failures reach Finish)")
     ck.model_must_refute(d1, "SuppliedKept", "retry removes all positions of the molecule (F5)")
     ck.model_must_refute(d2, "AttemptClean", "abandoned attempt not rolled back")
